@@ -3,6 +3,7 @@ package main
 import (
 	"fmt"
 	"go/types"
+	"math/big"
 	"sort"
 	"strings"
 )
@@ -15,6 +16,7 @@ type Term struct {
 	T    types.Type // Go type (may be nil for purely logical terms)
 	Sh   *PShape    // statically known shape of a pointer term (optional)
 	View *Term      // for slice terms inside spec functions: the inner element array (Array Int sigma)
+	Mask *big.Int   // for integer terms: an upper bound of the bits that may be set (optional)
 }
 
 // PShape records how a pointer term was built.
